@@ -217,6 +217,20 @@ void run_efun (int f, mixed a, mixed b) {
       q = ({ l1, l2, obs[0]->mkff (3), obs[0]->mkff (0) }); r = catch (bind (q[2], this_object ())); r = bind (q[3], this_object ());
     }
     break;
+  // ---- mapping composition: m * n, m *= n, m *= m (in place, through a temporary copy) on value-closed (every value is a
+  //      key: permutations), partially closed and disjoint mappings, with counted keys and values ----
+  case 90:   // m *= m in place
+    m = ([ 1 : 2, 2 : 3, 3 : 1 ]); m *= m; m *= m;                                  // permutation: nothing is deleted
+    q = ({ a }); l1 = ({ b }); m = ([ q : l1, l1 : q ]); m *= m;                  // closed, keys and values are arrays
+    m = ([ 1 : 2, 2 : ({ a }), 3 : 1 ]); m *= m;                                    // partially closed: one entry deleted
+    m = ([ 1 : ({ a }), 2 : ({ b }) ]); m *= m;                                     // disjoint: everything deleted
+    m = ([ "k" : "k", "j" : "k" ]); m *= m; r = m; r *= r;
+    break;
+  case 91:   // m * n and m *= n with two mappings, m * m as an expression
+    m = ([ 1 : 2, 2 : 3, 3 : 1 ]); r = m * m; r = m * ([ 1 : ({ a }), 2 : b, 3 : 7 ]); r = m * ([ 1 : ({ a }) ]); r = m * ([ ]);
+    q = ([ 2 : ({ a }), 3 : ([ 1 : b ]), 1 : "s" + sizeof (a) ]); m *= q; m = ([ 1 : 2, 2 : 9 ]); m *= q; m = ([ 5 : 6 ]); m *= q;
+    l1 = ({ a }); m = ([ l1 : l1 ]); r = m * m; r = m * ([ l1 : b ]); store = ([ 1 : 1, 2 : 1 ]); store *= store; store *= ([ 1 : ({ a }) ]); store = 0;
+    break;
   case 39: r = allocate_mapping (3); r["k"] = ({ a }); r[({ b })] = r["k"] + raise (b); break;
   }
 }
